@@ -226,7 +226,18 @@ def serial_noeffect_on(acc, which, base):
         'hy36-max': lambda i: 'zzzz' + LO[i % 36], 'zero': lambda i: '    0',
         'left-just': lambda i: ('%d' % (i + 1)).ljust(5), 'hetero-descending': lambda i: '%5d' % (i + 1),
         'interleaved': lambda i: '%5d' % ((i * 7919) % 9973),
+        'step-2': lambda i: '%5d' % (2 * i + 1), 'step-3': lambda i: '%5d' % (3 * i + 1), 'step-10': lambda i: '%5d' % (10 * i),
     }
+    # one (two, five) numbers left out at every residue boundary, as after deleted TER records or removed atoms
+    bounds_, last = [], None
+    for i, a in enumerate(base.atoms):
+        if last is not None and a.reskey != last:
+            bounds_.append(i)
+        last = a.reskey
+    for hole in (1, 2, 5):
+        variants['hole-%d-at-residue-boundaries' % hole] = (lambda hole: lambda i: '%5d' % (i + 1 + hole * sum(1 for b in bounds_ if b <= i)))(hole)
+    for b in bounds_[:6]:      # a single hole at one boundary
+        variants['one-hole-before-atom-%d' % b] = (lambda b: lambda i: '%5d' % (i + 1 + (1 if i >= b else 0)))(b)
     for name, f in variants.items():
         atoms = base.copy()
         for i, a in enumerate(atoms.atoms):
